@@ -9,6 +9,7 @@
 import Scale.EntryEnc
 import Proofs.EncodeRef
 import Proofs.MapOrder
+import Proofs.CmpLaws
 import Proofs.Like
 import Proofs.Prim
 namespace Scale.C06
@@ -56,6 +57,26 @@ theorem map_insertion_order_irrelevant {cmp : Val → Val → Ordering} (hc : La
     (hd₁ : DistinctKeys cmp key l₁) (hd₂ : DistinctKeys cmp key l₂) :
     Spec.encode (.seq k sz t) (.seq (fromIter cmp key l₁)) = Spec.encode (.seq k sz t) (.seq (fromIter cmp key l₂)) := by
   rw [fromIter_perm hc key l₁ l₂ hp hd₁ hd₂]
+
+/-- The hypothesis is not vacuous: the order the model itself uses for keys (integers numerically,
+    `false < true`, `None < Some`, `Ok < Err`, tuples / sequences / strings lexicographically, enum
+    values by index then payload) is a lawful total order on **all** values
+    (`Proofs/CmpLaws.lean`: swap, transitivity, equality only on identical values). -/
+theorem model_order_is_lawful : LawfulCmp Val.cmp := valCmp_lawful
+
+/-- Hence, unconditionally for the modelled `Ord`: a set built from the same elements, or a map from
+    the same entries, in any insertion order encodes identically. -/
+theorem set_insertion_order_irrelevant (sz : Nat) (t : Ty) (l₁ l₂ : List Val) (hp : l₁.Perm l₂)
+    (hd₁ : DistinctKeys Val.cmp id l₁) (hd₂ : DistinctKeys Val.cmp id l₂) :
+    Spec.encode (.seq .bset sz t) (.seq (fromIter Val.cmp id l₁)) =
+      Spec.encode (.seq .bset sz t) (.seq (fromIter Val.cmp id l₂)) :=
+  map_insertion_order_irrelevant valCmp_lawful id .bset sz t l₁ l₂ hp hd₁ hd₂
+
+theorem map_entries_insertion_order_irrelevant (sz : Nat) (t : Ty) (l₁ l₂ : List Val) (hp : l₁.Perm l₂)
+    (hd₁ : DistinctKeys Val.cmp entryKey l₁) (hd₂ : DistinctKeys Val.cmp entryKey l₂) :
+    Spec.encode (.seq .bmap sz t) (.seq (fromIter Val.cmp entryKey l₁)) =
+      Spec.encode (.seq .bmap sz t) (.seq (fromIter Val.cmp entryKey l₂)) :=
+  map_insertion_order_irrelevant valCmp_lawful entryKey .bmap sz t l₁ l₂ hp hd₁ hd₂
 
 /-- **Holders.** Boxed, shared, borrowed or copy-on-write holders encode like the plain value
     (`&T`, `&mut T`, `Cow`, `Ref` are the held type already; `Box`/`Rc`/`Arc`:). -/
